@@ -291,12 +291,15 @@ def gen_router_cases(rng, n, stops):
                       "wave2": rng.choice([0, 1, 3]) if r else 0, "slowdrop": rng.choice([0, 300, 1500]) if stop == "shutdown" else 0,
                       # the last proxy handle owned by a route's callback (released on the router thread when that route closes)
                       "owned": stop == "proxydrop" and k % 2 == 1})
+    # routers that never get a route before they are stopped (then late routes are offered)
+    for j, stop in enumerate([s for s in ("shutdown", "proxydrop") if s in stops]):
+        cases.append({"id": n + 1 + j, "plan": [], "noroutes": True, "threads": 1, "stop": stop, "nshut": 1 + j, "late": 2 if stop == "shutdown" else 0, "wave2": 0, "slowdrop": 0})
     return cases
 
 
 def router_line(c):
     return "id=%d plan=%s threads=%d stop=%s nshut=%d late=%d wave2=%d slowdrop=%d%s" % (
-        c["id"], ";".join("%d,%d,%d,%s" % (b, a, 1 if d else 0, (x if isinstance(x, str) else "x") if x else "c") for b, a, d, x in c["plan"]) or "0,0,1,c",
+        c["id"], ";".join("%d,%d,%d,%s" % (b, a, 1 if d else 0, (x if isinstance(x, str) else "x") if x else "c") for b, a, d, x in c["plan"]) or ("none" if c.get("noroutes") else "0,0,1,c"),
         c["threads"], c["stop"], c["nshut"], c["late"], c.get("wave2", 0), c.get("slowdrop", 0), " owned=1" if c.get("owned") else "")
 
 
@@ -305,7 +308,7 @@ def router_oracle(c, rec, prop):
         return "harness produced no record (crash?)"
     if rec["panicked"]:
         return "a thread panicked while the router was %s" % ("running" if rec["stop"] == "none" else "being stopped (%s)" % rec["stop"])
-    plan = c["plan"] or [(0, 0, True, False)]
+    plan = c["plan"] or ([] if c.get("noroutes") else [(0, 0, True, False)])
     log = rec["log_before_stop"] + rec["log_at_return"] + rec["log_after"]
     per = {}
     for e in log:
@@ -379,7 +382,7 @@ def router_oracle(c, rec, prop):
 
 
 def router_model_term(c, rec):
-    plan = c["plan"] or [(0, 0, True, False)]
+    plan = c["plan"] or ([] if c.get("noroutes") else [(0, 0, True, False)])
     pre = []
     for i, (b, a, d, x) in enumerate(plan):
         pre.append("PNewChan")
